@@ -31,10 +31,11 @@ MANIFEST = dict(
          "C17_join_roundtrip_escape (deserialize_list(delimiter.join(items)) returns the items for non-empty item lists whose "
          "items contain no delimiter character, with parse_empty; without it the empty items are dropped); "
          "C17_dict_roundtrip (flat mapping with unique keys free of separator characters, ASCII string values over the "
-         "whole reserved alphabet, separators below U+0100 containing no backslash/x/hex digit and disjoint from each other: "
+         "whole reserved alphabet, separators non-empty, containing no backslash, 'x' or lower-case hex digit and sharing no character: "
          "unescape(deserialize_dict(serialize_dict(m))) == m); C17_nested_serialises (serialize_dict raises nothing on any "
          "tree of mappings/lists/scalars in which no list directly contains None); C17_default_value (an item without the "
-         "equal tag yields (item, default_value)). Counter-example theorems: C17_nonascii_cex, C17_list_none_cex, "
+         "equal tag yields (item, default_value)); C17_key_value (the first equal tag splits); C17_values_protected (the text "
+         "written for a value contains no delimiter/equal-tag character, brace, bracket or quote). Counter-example theorems: C17_nonascii_cex, C17_list_none_cex, "
          "C17_maxsplit_escape_example. The INI part (parse_ini/load_ini/default_parse_value/split_pair) has no Lean model: "
          "it is checked only by running load_ini(save_file(m)) against a reference written from the statement.",
     note="unescape is modelled as UTF-8 encoding followed by CPython's unicode_escape decoder (validated by stream esc.unesc); "
@@ -195,7 +196,12 @@ def non_ascii_case(c):
     return na(c)
 
 
-CLASSIFIERS = {"non_ascii_case": non_ascii_case}
+def non_ascii_value(c):
+    """classifier of known finding C17-e: some *value* of the mapping is outside ASCII"""
+    return isinstance(c.get("m"), dict) and non_ascii_case(list(c["m"].values()))
+
+
+CLASSIFIERS = {"non_ascii_value": non_ascii_value}
 
 
 # ---------------------------------------------------------------------------
@@ -547,8 +553,8 @@ def _dict_valid(c):
 
 
 def safe_seps(d, eq):
-    bad = set("\\x0123456789abcdefABCDEF")
-    return bool(d) and bool(eq) and not (set(d) & bad) and not (set(eq) & bad) and not (set(d) & set(eq)) and all(ord(ch) < 256 for ch in d + eq)
+    bad = set("\\x0123456789abcdef")  # as hypothesis SafeSep of C17_dict_roundtrip
+    return bool(d) and bool(eq) and not (set(d) & bad) and not (set(eq) & bad) and not (set(d) & set(eq))
 
 
 VALID = {
@@ -605,7 +611,7 @@ def witness_fails(finding):
 # ---------------------------------------------------------------------------
 def run(ctx):
     n = ctx.budget(3000, 60000)
-    known_e = lambda c, bad=None: "C17-e" if non_ascii_case(c) else None  # noqa
+    known_e = lambda c, bad=None: "C17-e" if non_ascii_value(c) else None  # noqa
 
     # ---- B1: split_with_escape, random
     rng = ctx.rng("split")
@@ -720,6 +726,8 @@ def run(ctx):
         else:
             v = gen_tree(rng, d, eq, 3, none_in_lists=True)
         ck, cv = rng.choice([(0, 0), (0, 0), (0, 0), (1, 0), (-1, 1), (0, -1), (1, 1)])
+        if non_ascii_case([v, d, eq]) and rng.random() < 0.8:
+            ck, cv = 0, 0  # case conversion outside ASCII is outside the model: keep `unsupported` rare
         sers.append({"v": v, "d": d, "eq": eq, "ge": rng.random() < 0.8, "gn": rng.random() < 0.8, "ck": ck, "cv": cv})
     ctx.correspond("esc.ser", sers, ser_line, ser_impl, nontrivial=lambda c: isinstance(c["v"], (dict, list)))
     # ---- B6: unescape
@@ -741,13 +749,13 @@ def run(ctx):
         rts.append({"m": gen_flat(rng, d, eq, nonascii=rng.random() < 0.1, clean=rng.random() < 0.85), "d": d, "eq": eq})
     ctx.correspond("esc.rt", rts, rt_line, rt_impl, nontrivial=lambda c: len(c["m"]) > 0)
     dr = [c for c in rts if _dict_valid(c)]
-    for d in SAFE_DELIMS:  # the whole reserved alphabet, one character at a time, every safe separator pair
+    for d in SAFE_DELIMS + ["A", "\u20ac", "F;"]:  # the whole reserved alphabet, one character at a time, every safe separator pair
         for eq in SAFE_EQS:
             if safe_seps(d, eq):
                 for ch in RESERVED + list(d) + list(eq) + ["\t", "\n", "\r", "\x00", "\x7f", "a", "'"]:
                     dr.append({"m": {"k": ch, "j": "a" + ch + ch + "b"}, "d": d, "eq": eq})
     ctx.evaluate("dict_roundtrip", dr, check_dict_roundtrip, in_known=known_e, nontrivial=lambda c: len(c["m"]) > 0)
-    ctx.evaluate("protected", [c for c in dr if not non_ascii_case(c)], check_protected, nontrivial=lambda c: len(c["m"]) > 0)
+    ctx.evaluate("protected", [c for c in dr if not non_ascii_value(c)], check_protected, nontrivial=lambda c: len(c["m"]) > 0)
     # ---- C: nested mappings serialise
     rng = ctx.rng("nested")
     ns = []
